@@ -19,6 +19,10 @@ structure Lawful (I : Item T M A) : Prop where
   pa_op    : ∀ x a b, I.pa x (I.op a b) = I.op (I.pa x a) (I.pa x b)
   val_merge : ∀ x y, I.val (I.merge x y) = I.op (I.val x) (I.val y)
   pa_merge  : ∀ x y a, I.pa (I.merge x y) a = a
+  /-- `update` (overridable; what `merge_at` calls) observes the merge of the children, whatever `self` was … -/
+  val_update : ∀ p x y, I.val (I.update p x y) = I.op (I.val x) (I.val y)
+  /-- … and leaves no pending tag behind -/
+  pa_update  : ∀ p x y a, I.pa (I.update p x y) a = a
   val_modify : ∀ x m, I.val (I.modify x m) = I.act m (I.val x)
   pa_modify  : ∀ x m a, I.pa (I.modify x m) a = I.act m (I.pa x a)
   push_val0 : ∀ p l r, I.val (I.push p l r).1 = I.val p
@@ -355,11 +359,11 @@ theorem modify_node (L : Lawful I) (v : T) (lt rt : Tree T) (md : M) (hwf : WF I
 
 theorem mergeAt_spec (L : Lawful I) (v : T) (l r : Tree T) (hl : WF I l) (hr : WF I r) :
     den I (mergeAt I (.node v l r)) = den I l ++ den I r ∧ WF I (mergeAt I (.node v l r)) := by
-  have hid : I.pa (I.merge l.root r.root) = id := by funext a; simp [L.pa_merge]
+  have hid : I.pa (I.update v l.root r.root) = id := by funext a; simp [L.pa_update]
   have e : den I (mergeAt I (.node v l r)) = den I l ++ den I r := by simp [mergeAt, den, hid]
   refine ⟨e, hl, hr, ?_⟩
   have := e; simp only [mergeAt] at this
-  rw [this, foldO_append I L, ← WF_root I l hl, ← WF_root I r hr, L.val_merge]; rfl
+  rw [this, foldO_append I L, ← WF_root I l hl, ← WF_root I r hr, L.val_update]; rfl
 
 theorem Shaped_mergeAt (v : T) (l r : Tree T) (vl vr : Nat) :
     Shaped (mergeAt I (.node v l r)) vl vr ↔ Shaped (.node v l r) vl vr := by
